@@ -269,6 +269,38 @@ def mul_ops():
             ops.append((f"floordiv:{sk}", lambda x, sk=sk: x // second(sk, x)))
             ops.append((f"imul:{sk}", lambda x, sk=sk: operator.imul(x, second(sk, x))))
             ops.append((f"itruediv:{sk}", lambda x, sk=sk: operator.itruediv(x, second(sk, x))))
+    # products through array functions and Unit objects, with the offset-scale operand on the RIGHT as well as on the left
+    def partner(kind, x):
+        n = np.atleast_1d(x).shape[0]
+        base = np.arange(1.0, n + 1.0)
+        if kind == "K":
+            return unyt_array(base, "K")
+        if kind == "m":
+            return unyt_array(base, "m")
+        if kind == "dimless":
+            return unyt_array(base, "dimensionless")
+        return base
+
+    prodfuncs = {
+        "dot": np.dot, "vdot": np.vdot, "inner": np.inner, "outer": np.outer, "kron": np.kron, "matmul": np.matmul,
+        "convolve": np.convolve, "correlate": np.correlate, "tensordot": lambda a, b: np.tensordot(a, b, axes=0),
+        "cross": lambda a, b: np.cross(np.resize(a, 3), np.resize(b, 3)), "einsum": lambda a, b: np.einsum("i,i", a, b),
+        "multiply.outer": np.multiply.outer, "linalg.outer": np.linalg.outer, "vecdot": np.vecdot,
+    }
+    for fname, f in prodfuncs.items():
+        for pk in ("K", "m", "dimless", "bare"):
+            ops.append((f"{fname}:offset-left:{pk}", lambda x, f=f, pk=pk: f(np.atleast_1d(x), partner(pk, x))))
+            ops.append((f"{fname}:offset-right:{pk}", lambda x, f=f, pk=pk: f(partner(pk, x), np.atleast_1d(x))))
+    for pk in ("K", "m"):  # (a dimensionless number times a Unit is construction, not multiplication of a quantity)
+        ops.append((f"quantity-times-Unit:{pk}", lambda x, pk=pk: partner(pk, x) * x.units))
+        ops.append((f"Unit-times-quantity:{pk}", lambda x, pk=pk: x.units * partner(pk, x)))
+        ops.append((f"quantity-over-Unit:{pk}", lambda x, pk=pk: partner(pk, x) / x.units))
+    ops += [
+        ("unit_rmul", lambda x: unyt_quantity(1.0, Unit("m") * x.units)),
+        ("unit_rmul_K", lambda x: unyt_quantity(1.0, Unit("K") * x.units)),
+        ("unit_mul_K", lambda x: unyt_quantity(1.0, x.units * Unit("K"))),
+        ("unit_rdiv", lambda x: unyt_quantity(1.0, x.units / Unit("m"))),
+    ]
     ops += [
         ("square", lambda x: np.square(x)),
         ("sqrt", lambda x: np.sqrt(np.abs(x) + 1)),
